@@ -49,7 +49,7 @@ PROPS = {
     "C13": {"suites": [], "extra": [c13_step],
             "rule": "launches of the real binary (fresh process, fresh hash seed) on corpus files and generated multi-diagnostic files; distinct = (file, mode) pairs",
             "assumptions": ["address-dependent behaviour (HashableRc hashes pointers, used for `contains` only) cannot be exhibited by the model; it is covered by repeated launches"]},
-    "C14": {"suites": ["lexer", "parser", "pipeline"], "oracle_only": ["parser"], "extra": [c14_step],
+    "C14": {"suites": ["lexer", "parser", "pipeline"], "extra": [c14_step],
             "assumptions": ["stack exhaustion is outside the model (known finding KF-stack)", "clap argument parsing and file reading are not modelled"]},
     "C17": {"suites": ["parser"], "extra": [c17_step],
             "assumptions": ["a theorem bounds model bookkeeping, not wall-clock time; time is measured on the real code (release build) for 16 input families",
